@@ -391,6 +391,11 @@ def monitor_params(case):
     for text, v in Log.idna:
         if isinstance(v, (bytes, bytearray)) and any(b <= 0x20 for b in v):
             bad.append('HostPrintable: idna(%r) = %r holds a control character or space' % (text, bytes(v)))
+    pre = py_strip_prefix(case.url)
+    if all(ord(ch) > 0x1f for ch in pre) and any(ord(ch) <= 0x1f for ch in pre.lower()):
+        bad.append('PrintParams: %r.lower() holds a control character' % pre)
+    if case.ds and any(ord(ch) <= 0x1f for ch in case.ds):
+        bad.append('PrintParams: default_scheme %r holds a control character' % case.ds)
     i = case.info
     if i is not None and case.exc is None and getattr(i, 'scheme', None) in NET:
         import urllib.parse
